@@ -67,7 +67,7 @@ except Exception:
 rows = []
 for sid in sorted(os.listdir(os.path.join(HERE, 'seeded'))):
     d = os.path.join(HERE, 'seeded', sid)
-    if not os.path.isdir(d): continue
+    if not os.path.isdir(d) or not os.path.exists(os.path.join(d, 'patch.diff')): continue
     notes = open(os.path.join(d, 'notes.md')).read() if os.path.exists(os.path.join(d, 'notes.md')) else ''
     ver = open(os.path.join(d, 'verified.txt')).read() if os.path.exists(os.path.join(d, 'verified.txt')) else ''
     det = list(DET.get(sid, (None, sid.split('-')[0], '', 'quick', 'not run')))
